@@ -1,6 +1,7 @@
 import Orx.KSRun
 import Orx.IW.Outs
 import Orx.IW.Progress
+import Orx.IW.Termination
 /-! # C09 Progress: every call returns; known-size sources never wait -/
 namespace Orx.Props.C09
 open Orx Orx.KS
@@ -53,5 +54,42 @@ theorem iter_spin_is_harmless (s : IW.Script) (t : Nat) (c : IW.Cfg) (h : IW.Spi
     (IW.step s t c).R = c.R ∧ (IW.step s t c).Y = c.Y ∧ (IW.step s t c).C = c.C ∧ (IW.step s t c).P = c.P ∧
     (∀ u, u ≠ t → (IW.step s t c).th u = c.th u) ∧ IW.Spinning (IW.step s t c) t :=
   IW.spin_step_harmless s t c h
+
+/-- **Every call returns under every fair interleaving (wrapper; programs of single, one-shot chunk and buffered
+pulls and `skip_to_end`, any number of each per thread — looping adaptors excluded: `_partial`).** For every wrapped
+iterator — finite or not, fused or not, panicking or not — and every schedule that keeps scheduling each of the `T`
+threads, after finitely many steps no thread has work left. Also when other threads stop pulling, reach the end or
+call `skip_to_end`: those are just programs. Proof: a potential that every non-waiting step decreases and every
+spin iteration preserves (`IW.prog_cost_lt`, `IW.spin_cost_eq`), deadlock freedom, and the generic lemma
+`Orx.Fair.fair_termination`.
+Missing for the full statement: `for_each`/`fold`/`values` re-issue their request until they see the end; their
+termination additionally needs a finite wrapped iterator, and the potential must charge the re-issue to the element
+that justifies it. Deadlock freedom (`iter_deadlock_free`) does cover them. -/
+theorem iter_fair_termination_partial (s : IW.Script) (T B : Nat) (hB : B < W) (ps : Nat → List IW.Req)
+    (hok : ∀ t, ∀ r ∈ ps t, IW.ReqOk r) (hnl : ∀ t, ∀ r ∈ ps t, r.isLoop = false) (hout : ∀ t, T ≤ t → ps t = [])
+    (hbud : ((List.range T).map fun t => IW.lenSum (ps t)).sum ≤ B)
+    (σ : Nat → Nat) (hfair : ∀ t, t < T → ∀ k, ∃ d, σ (k + d) = t) :
+    ∃ d, ∀ t, t < T → ¬ IW.Busy (Orx.Fair.seg (IW.sys s T B hB) σ 0 d (IW.init ps)) t :=
+  IW.fair_termination s T B hB ps hok hnl hout hbud σ hfair
+
+-- the hypotheses are satisfiable: 3 threads, mixed requests, a skip
+def exPs : Nat → List IW.Req
+  | 0 => [.single false, .chunk 3]
+  | 1 => [.buffered 2 false, .single false, .skip]
+  | 2 => [.chunk 1]
+  | _ => []
+example : (∀ t, ∀ r ∈ exPs t, r.isLoop = false) ∧ (∀ t, 3 ≤ t → exPs t = []) ∧
+    ((List.range 3).map fun t => IW.lenSum (exPs t)).sum ≤ 100 := by
+  refine ⟨?_, ?_, by decide⟩
+  · intro t r hr
+    match t with
+    | 0 => simp [exPs] at hr; rcases hr with rfl | rfl <;> rfl
+    | 1 => simp [exPs] at hr; rcases hr with rfl | rfl | rfl <;> rfl
+    | 2 => simp [exPs] at hr; subst hr; rfl
+    | _ + 3 => simp [exPs] at hr
+  · intro t ht
+    match t with
+    | 0 | 1 | 2 => omega
+    | _ + 3 => rfl
 
 end Orx.Props.C09
